@@ -242,6 +242,21 @@ class DatasetMonitor:
                     i += len(ep)
                 if len([e for e in out.episodes if e]) > 1:
                     run.res.probe("dataset_with_several_episodes")
+                # the arrays the learner actually consumes (public prepare_policy_gradient_dataset)
+                try:
+                    prep = out.prepare_policy_gradient_dataset(envs[0].action_space, run.plan["cfg"].get("gamma", 1.0))
+                except Exception as e:
+                    from .core import raised_by_code_under_test
+                    if not raised_by_code_under_test(e):
+                        raise
+                    prep = None
+                if prep is not None:
+                    p_obs, p_act, p_nobs = np.asarray(prep[0]), np.asarray(prep[1]), np.asarray(prep[2])
+                    if envs[0].discrete:
+                        p_act = p_act + envs[0].action_space.start
+                    if not self.rows_ok(where + " (prepared arrays)", envs[0], first[0], p_obs, p_act, [r[3] for r in rows], nobs=p_nobs):
+                        return
+                    run.res.probe("prepared_arrays_checked")
             elif kind == "rollout_time_major":
                 buf = out[0]
                 b = buf.buffer
@@ -660,6 +675,14 @@ class ScheduleMonitor:
             if sa is None or sb is None:
                 continue
             n_exp = getattr(run.adapter, "opt_steps_per_update", lambda r, n: 1)(run, name)
+            if isinstance(n_exp, tuple) and n_exp[0] == "min":
+                if name in allowed and sb - sa < n_exp[1]:
+                    run.V("C05", f"iteration {k}: a documented update of '{name}' was logged but its optimiser made {sb - sa} steps (at least {n_exp[1]} expected): the trained component did not change")
+                elif name in allowed:
+                    run.res.probe("optimizer_steps_exact")
+                elif sb != sa:
+                    run.V("C05", f"iteration {k}: optimiser '{name}' stepped although its module is not scheduled")
+                continue
             if n_exp is None:
                 if name not in allowed and sb != sa:
                     run.V("C05", f"iteration {k}: optimiser '{name}' stepped although its module is not scheduled")
